@@ -202,6 +202,24 @@ def gen_ops(rng, sc, tier):
         k = rng.choice([0, 4, 20, 120])
         us = [rng.unit() if rng.chance(5, 6) else rng.choice([0.0, 0.5, 0.25, 1.0 - 2.0 ** -53]) for _ in range(k)]
         ops.append(("pshort", " ".join(["pshort", str(steps()), str(steps()), B(rr()), B(snap()), str(k)] + [B(x) for x in us])))
+    # directed: snapToVertex = 0 and a first sample EXACTLY on a repeated vertex (t = 0/0), second sample elsewhere
+    if sc.kind != "se2":
+        ds = [0.0]
+        for i in range(n - 1):
+            d = 0.0
+            for k in range(sc.pdim):
+                diff = sc.path[i][k] - sc.path[i + 1][k]
+                d += diff * diff
+            ds.append(ds[-1] + math.sqrt(d))
+        for i in range(1, n - 1):
+            if ds[i] == ds[i + 1] and ds[-1] > 0 and 0 < ds[i] < ds[-1]:
+                u = ds[i] / ds[-1]
+                for cand in (u, math.nextafter(u, 0.0), math.nextafter(u, 1.0)):
+                    if (ds[-1] - 0.0) * cand + 0.0 == ds[i]:
+                        for u1 in (0.93, 0.07):
+                            ops.append(("pshort", " ".join(["pshort", "1", "1", B(1.0), B(0.0), "2", B(cand), B(u1)])))
+                        break
+                break
     # randomised, real RNG
     if sc.kind != "se2":
         seeds = [rng.below(1000) for _ in range(2 if tier == "quick" else 6)]
@@ -260,11 +278,25 @@ def parse_result(line, w):
     if i < len(t) and t[i] == "vsc":
         r["vsc_tokens"] = t[i:]
         r["vsc"] = [int(x) for x in t[i + 2:]]
+    if i < len(t) and t[i] == "ptc":
+        r["ptc_fired"] = t[i + 1] == "1"
     return r
 
 
 def fl(st):
     return tuple(F(x) for x in st)
+
+
+def canon(line):
+    """result prefix with every NaN bit pattern replaced by `nan` (the sign/payload of a NaN is not compared)"""
+    out = []
+    for t in line.split():
+        if len(t) > 15 and t.isdigit():
+            v = int(t)
+            if (v >> 52) & 0x7FF == 0x7FF and v & ((1 << 52) - 1):
+                t = "nan"
+        out.append(t)
+    return " ".join(out)
 
 
 # ---------------------------------------------------------------------------------- spec oracle
@@ -391,7 +423,8 @@ def oracle(sc, routine, line, res, objective, goals_used):
     if base in RET_FALSE_UNCHANGED and res["ret"] == 0 and out_bits != inp_bits:
         fails.append(("ret_false", "returned false but changed the path"))
     if base in ("simplify", "simplifymax") and res["ret"] == 1 and not res["chk"]:
-        fails.append(("simplify_true_implies_check", "simplify returned true but check() fails on the result"))
+        fails.append(("simplify_true_implies_check", "simplify returned true but check() fails on the result"
+                      + (" (the termination condition fired during the run)" if res.get("ptc_fired") else "")))
     return fails
 
 
@@ -444,9 +477,14 @@ def oracle_hybrid(sc, line, out, paths):
 def classify_crash(line, err):
     """name the crash site from the sanitizer report (used as the `class` key of the violation record)"""
     t = line.split()
-    if "selectAlongPath" in err and "heap-buffer-overflow" in err and t[0] == "rnd" and t[3] == "perturb" and F(t[-1]) == 0.0:
-        return "selectAlongPath-oob-snap0"
-    for key in ("heap-buffer-overflow", "heap-use-after-free", "SEGV", "runtime error", "Assertion"):
+    rnd = t[0] == "rnd"
+    rt = t[3] if rnd else t[0]
+    if "heap-buffer-overflow" in err:
+        if rt == "perturb" and "selectAlongPath" in err and F(t[-1]) == 0.0:
+            return "selectAlongPath-oob-snap0"
+        if rt == "pshort" and "partialShortcutPath" in err and F(t[7] if rnd else t[4]) == 0.0 and "PathSimplifier.cpp:3" in err:
+            return "snap0-sample-at-path-end"
+    for key in ("heap-buffer-overflow", "heap-use-after-free", "SEGV", "runtime error", "Assertion", "LeakSanitizer"):
         if key in err:
             return key
     return "exit"
@@ -499,8 +537,8 @@ def run_scenario(ck, hbin, hchk, sc, ops, tag, seedtag):
         routine, line = ops[i]
         cls = classify_crash(line, err)
         ck.count("crash:" + routine + ":" + cls)
-        issues.append(dict(kind="oracle", routine=routine, clause="indices_in_range" if cls == "selectAlongPath-oob-snap0" else "crash", cls=cls,
-                           detail="the routine does not return (rc=%s): %s" % (rc, err[-700:] if rc != "timeout" else "no result within 30 s"),
+        issues.append(dict(kind="oracle", routine=routine, clause="indices_in_range" if cls in ("selectAlongPath-oob-snap0", "snap0-sample-at-path-end") else "crash", cls=cls,
+                           detail="the routine does not return (rc=%s): %s" % (rc, err[:700] if rc != "timeout" else "no result within 30 s"),
                            script=hdr + [line], observed=[err[:1500]]))
     dscript = ["pathops", sc.env_line(), sc.states_line("path", sc.path)]
     dmap = []
@@ -529,6 +567,7 @@ def run_scenario(ck, hbin, hchk, sc, ops, tag, seedtag):
         if not res["chk"]:
             ck.count("result-check-false:" + routine)
         fail_issues = [dict(kind="oracle", routine=routine, clause=clause, detail=detail, objective=objective,
+                            cls="ptc-fired-mid-run" if (clause == "simplify_true_implies_check" and res.get("ptc_fired")) else None,
                             rnd=rnd, script=hdr + [line], observed=[o]) for clause, detail in fails]
         if not rnd and routine in LOCKSTEP:
             pending_fails[line] = fail_issues      # judged after the model run (an index error explains them)
@@ -552,6 +591,25 @@ def run_scenario(ck, hbin, hchk, sc, ops, tag, seedtag):
             return issues
         for (routine, line, res, o), m in zip(dmap, model[2:]):
             ck.traces_validated += 1
+            impl_c = canon(res["prefix"])
+            if routine == "pshort":
+                m, _, mfixed = m.partition(" | fixed ")
+                m, mfixed = canon(m), canon(mfixed)
+                if impl_c != m and impl_c == mfixed:
+                    ck.count("pshort:agrees-with-fixed-variant")
+                    issues += pending_fails.get(line, [])
+                    continue
+                if m != mfixed:
+                    ck.count("pshort:exact-vertex-hit-without-snap")
+                    if impl_c == m and " nan" in m and " nan" not in mfixed and F(line.split()[4]) == 0.0:
+                        # same root cause as the out-of-range read: a sample that hits a vertex exactly is not snapped when
+                        # snapToVertex = 0; at a repeated vertex t = 0/0 and a NaN state enters the path
+                        issues.append(dict(kind="oracle", routine="pshort", clause="finite", cls="snap0-exact-vertex-hit",
+                                           detail="a sample exactly on a repeated vertex with snapToVertex = 0 yields t = 0/0: NaN state in the result",
+                                           script=hdr + [line], observed=[o], model=[m]))
+                        continue
+            else:
+                m = canon(m) if routine != "rope" else m
             if m == "idx-error":
                 # the model's checked indexing failed: the real routine indexes a vector out of range on this input
                 snap0 = routine == "pshort" and F(line.split()[4]) == 0.0
@@ -586,7 +644,7 @@ def run_scenario(ck, hbin, hchk, sc, ops, tag, seedtag):
                     issues.append(dict(kind="corr", routine=routine, clause="lockstep", detail="model and implementation differ",
                                        script=hdr + [line], dscript=dscript[:3] + [dscript[3 + [x[1] for x in dmap].index(line)]], observed=[res["prefix"]], model=[m]))
             else:
-                if res["prefix"] != m:
+                if impl_c != m:
                     issues.append(dict(kind="corr", routine=routine, clause="lockstep", detail="model and implementation differ",
                                        script=hdr + [line], dscript=dscript[:3] + [dscript[3 + [x[1] for x in dmap].index(line)]], observed=[res["prefix"]], model=[m]))
     return issues
